@@ -393,7 +393,8 @@ func (d *c20drv) run(c *verifsim.Chooser, st *Stats, render bool) *Outcome {
 		}
 		return o
 	}
-	r := doExecuteRaw(e, obj)
+	var r RawResult
+	under(ctx, func() { r = doExecuteRaw(e, obj) })
 	verifsim.TakeStdout()
 	sample["library"] = r.String()
 	if r.Escaped != nil {
